@@ -86,11 +86,21 @@ func NewModules() *Modules {
 // e.g., foo.yang is named foo).  An error is returned if the file is not
 // found or there was an error parsing the file.
 func (ms *Modules) Read(name string) error {
+	// findFile puts the directory of the file it finds on the search path.
+	// A file that is then refused must leave no trace there either.
+	npath := len(ms.Path)
 	name, data, err := ms.findFile(name)
 	if err != nil {
 		return err
 	}
-	return ms.Parse(data, name)
+	if err := ms.Parse(data, name); err != nil {
+		for _, p := range ms.Path[npath:] {
+			delete(ms.pathMap, p)
+		}
+		ms.Path = ms.Path[:npath]
+		return err
+	}
+	return nil
 }
 
 // Parse parses data as YANG source and adds it to ms.  The name should reflect
